@@ -232,6 +232,11 @@ func caseCands(c PCase) []PCase {
 			out = append(out, d)
 		}
 	case "c14":
+		if c.HandoffAfter > 0 {
+			d := cloneCase(c)
+			d.HandoffAfter = 0
+			out = append(out, d)
+		}
 		if c.FreezeAt > 0 {
 			d := cloneCase(c)
 			d.FreezeAt = 0
@@ -419,7 +424,7 @@ type parsimPlan struct {
 func CheckC06(e *Env) (int, error) {
 	plan := parsimPlan{nGen: 36, inputs: 36, optsPer: 2, runs: 250000, chunk: 4000}
 	if e.Tier == "thorough" {
-		plan = parsimPlan{nGen: 220, inputs: 80, optsPer: 4, runs: 8000000, chunk: 40000}
+		plan = parsimPlan{nGen: 220, inputs: 80, optsPer: 4, runs: 3000000, chunk: 25000}
 	}
 	return parsimCheck(e, "C06", "c06", plan)
 }
@@ -428,7 +433,7 @@ func CheckC06(e *Env) (int, error) {
 func CheckC12(e *Env) (int, error) {
 	plan := parsimPlan{nGen: 36, inputs: 36, optsPer: 2, runs: 80000, chunk: 1500}
 	if e.Tier == "thorough" {
-		plan = parsimPlan{nGen: 220, inputs: 80, optsPer: 4, runs: 3000000, chunk: 20000}
+		plan = parsimPlan{nGen: 220, inputs: 80, optsPer: 4, runs: 800000, chunk: 8000}
 	}
 	return parsimCheck(e, "C12", "c12", plan)
 }
@@ -460,9 +465,14 @@ func parsimCheck(e *Env, prop, mode string, plan parsimPlan) (int, error) {
 	e.Logf("build done")
 	// the weaving must not change behaviour: the woven runner's fault-free
 	// sequential results are compared with the unwoven build on a sample
-	validated, err := rig.validateWeaving(mode, e.Seed)
-	if err != nil {
-		return 2, err
+	// (a mismatch is reported as an infrastructure failure only if the sweep
+	// finds no violation: code whose sequential behaviour depends on what ran
+	// before in the process differs between the two builds as well)
+	validated, weaveErr := rig.validateWeaving(mode, e.Seed)
+	if weaveErr != nil {
+		if _, ok := weaveErr.(weaveMismatch); !ok {
+			return 2, weaveErr
+		}
 	}
 	agg, err := rig.sweep(mode, e.Seed, plan.runs, false, plan.chunk, 30*time.Minute)
 	if err != nil {
@@ -538,6 +548,7 @@ func parsimCheck(e *Env, prop, mode string, plan parsimPlan) (int, error) {
 		cov["probes"] = sumPrefix(agg.Stats, "probe_")
 		cov["boundary_sweeps"] = agg.Stats["boundary_sweeps"]
 		cov["boundary_sweep_inputs"] = agg.Stats["boundary_sweep_inputs"]
+		cov["giant_inputs"] = agg.Stats["giant_inputs"]
 		cov["marathon_histories"] = agg.Stats["marathon_histories"]
 		cov["marathon_steps"] = agg.Stats["marathon_steps"]
 		cov["marathon_note"] = "histories of 131 073 steps on one uint16 instance (rare inputs every 65 536 steps, a short filler in between), compared with fresh parsers at the rare steps and at samples: probes everything that counts operations in a value of type U"
@@ -551,6 +562,10 @@ func parsimCheck(e *Env, prop, mode string, plan parsimPlan) (int, error) {
 		cov["distinct_site_adjacency_pairs"] = len(agg.Adjacent)
 		cov["runs_abandoned_at_step_cap"] = agg.Stats["abandoned"]
 		cov["freeze_windows_opened"] = agg.Stats["freeze_windows_opened"]
+		cov["handoff_windows_opened"] = agg.Stats["handoff_windows_opened"]
+		cov["solo_order_checks"] = agg.Stats["solo_order_checks"]
+		cov["cases_with_a_big_input_client"] = agg.Stats["cases_with_a_big_input_client"]
+		cov["cases_with_a_big_input_client_skipped"] = agg.Stats["cases_with_a_big_input_client_skipped"]
 		cov["goid_fast_path"] = agg.GoidFast
 		cov["cold_start_runs"] = coldN
 		cov["cold_start_note"] = "single-case worker processes in which the concurrent run precedes the solo references, so lazily initialised package-level state is met cold; repeated on the -race build"
@@ -567,6 +582,9 @@ func parsimCheck(e *Env, prop, mode string, plan parsimPlan) (int, error) {
 	exit, n := e.Report("parsim", prop, viols)
 	fmt.Printf("%s %s: %d simulated runs (%d non-trivial, %d distinct, %d skipped), %d parsers, %d violation(s), %.1fs (build %.1fs)\n",
 		prop, e.Tier, agg.Runs, agg.Nontrivial, len(agg.Sigs), totalSkipped(agg.Skipped), len(rig.infos), n, wall, buildS)
+	if exit == 0 && weaveErr != nil {
+		return 2, infra("%v", weaveErr)
+	}
 	return exit, nil
 }
 
@@ -583,6 +601,10 @@ func samplesOf(cs []PCase) []any {
 	}
 	return out
 }
+
+type weaveMismatch struct{ msg string }
+
+func (w weaveMismatch) Error() string { return w.msg }
 
 // validateWeaving runs the first cases of the mode, fault-free and
 // sequentially, on both the woven and the unwoven runner and requires equal
@@ -634,7 +656,7 @@ func (rig *parsimRig) validateWeaving(mode string, seed uint64) (int, error) {
 			// skips a case whose reference exceeds the budget; the unwoven
 			// build has nothing to count)
 			if a.RefSigs[k] != 0 && b.RefSigs[k] != 0 && a.RefSigs[k] != b.RefSigs[k] {
-				return infra("weaving changes behaviour: case %d of mode %s observes differently in the woven and the unwoven build", from+k, mode)
+				return weaveMismatch{fmt.Sprintf("weaving changes behaviour: case %d of mode %s observes differently in the woven and the unwoven build", from+k, mode)}
 			}
 		}
 		mu.Lock()
